@@ -543,6 +543,24 @@ func (cc *checkCtx) runAccessScans() {
 							addr = u.Addr
 						case *ssa.MapUpdate:
 							addr = u.Map
+						case ssa.CallInstruction:
+							// the address of a package-level variable (or of a part of it) handed to a call, e.g. a method
+							// of a sync.Map / sync.Once variable: the callee may write through it
+							for _, a := range append([]ssa.Value{u.Common().Value}, u.Common().Args...) {
+								if a == nil {
+									continue
+								}
+								if _, isPtr := a.Type().Underlying().(*types.Pointer); !isPtr {
+									continue
+								}
+								if g := addrOfGlobal(a); g != nil && e.inRepoPkg(g.Pkg) {
+									nsites++
+									if fn.Name() != "init" && !strings.HasPrefix(fn.Name(), "init#") && !allowed[key] {
+										offenders[key+" passes the address of "+g.Name()] = cc.posOfIns(ins)
+									}
+								}
+							}
+							continue
 						default:
 							continue
 						}
@@ -576,6 +594,23 @@ func (cc *checkCtx) posOfIns(ins ssa.Instruction) string {
 	}
 	pp := cc.e.prog.Fset.Position(p)
 	return fmt.Sprintf("%s:%d", strings.TrimPrefix(pp.Filename, cc.e.repo+"/"), pp.Line)
+}
+
+// addrOfGlobal: v is the address of a package-level variable or of a field / element of one (no load in between).
+func addrOfGlobal(v ssa.Value) *ssa.Global {
+	for i := 0; i < 8; i++ {
+		switch x := v.(type) {
+		case *ssa.Global:
+			return x
+		case *ssa.FieldAddr:
+			v = x.X
+		case *ssa.IndexAddr:
+			v = x.X
+		default:
+			return nil
+		}
+	}
+	return nil
 }
 
 // globalRoot: the package-level variable a store address is derived from (directly, through a field/element address,
